@@ -915,6 +915,12 @@ def EndCoversC (I : Interp) (p : Evm.Params) (S : Nat → Prop) (w0 : Evm.World)
         (∀ b ∈ ce.e.data, b.WF ∧ b.width = 8) ∧ HRel I p S r.1 ce.hsto) ∨
      (∃ r', ce.e.out = .stuck r') ∨ ce.e.tag ≠ .normal)
 
+/-- what the simulation knows of an end besides the world it describes, and what the next transaction started from
+    it (`nextTx`) needs: the concretization map is justified by the path, the balance chain and the created accounts
+    are well-formed -/
+def EndInv (I : Interp) (S : Nat → Prop) (ce : CEnd) : Prop :=
+  SubstOk I ce.e.st ∧ ChainWF ce.bal ∧ CrOK S ce.created
+
 section
 variable (I : Interp) (p : Evm.Params) (S : Nat → Prop) (w0 : Evm.World) (C : Prop)
 variable (cs : CState) (w : Evm.World) (f : Evm.Frame) (kcs : List CCont)
@@ -952,7 +958,7 @@ theorem finish_sound (hrel : RelC I p S w0 cs w f kcs) (hsat : Sat I cs.st.path)
     (∀ ce ∈ (finish cs lo).ends, ce.e.tag = .normal → ∀ h, ce.e.out = .halt h →
         ∃ w', RunStack p w f kcs (w', haltWith h (ce.e.data.map (·.eval I))) ∧
           WRelM I S (wd w0 ce.created ce.nonce) w' (stoOf ce.stores) (evalLogs I ce.logs)
-            (balSem I w0 ce.bal) ∧ HRel I p S w' ce.hsto) := by
+            (balSem I w0 ce.bal) ∧ HRel I p S w' ce.hsto ∧ EndInv I S ce) := by
   refine ⟨fun cs' hm hsat' => ?_, fun ce hm ht h ho => ?_⟩
   · rcases mem_finish_next hm with hm | ⟨e, he, k, ks, h, hc, ho, ht, hm⟩
     · exact hl.1 cs' hm hsat'
@@ -970,7 +976,8 @@ theorem finish_sound (hrel : RelC I p S w0 cs w f kcs) (hsat : Sat I cs.st.path)
       · have hkcs : kcs = [] := by
           have := hrel.conts; rw [hc] at this; cases this; rfl
         subst hkcs
-        exact ⟨w, (halts_halt hstep).2 rfl, wrelM_fullOf_keeps hrel hk, hrel.hH⟩
+        exact ⟨w, (halts_halt hstep).2 rfl, wrelM_fullOf_keeps hrel hk, hrel.hH,
+          hrel.hR.subst.same hk.2.1 hk.1, hrel.hbal, hrel.hcr⟩
       · exact absurd ⟨h, ho, ht⟩ hn
     · rw [hr'] at ho; cases ho
 
